@@ -16,7 +16,10 @@ SPEC = dict(
          "setProjectInterpolatedStates(false) + 2-4 witness events + loose accuracy (1e-2..6e-4) + tight constraint tolerance (1e-6..3e-9) "
          "+ random project-every-step / infinity norm / full Newton; the advanced state at tHigh is recorded at every ReachedEventTrigger "
          "return (kind event_after); rule: step, event-before and event-after states must ALWAYS be on the manifold, only interpolated "
-         "REPORT states are exempt when projection of interpolated states is off; "
+         "REPORT states are exempt when projection of interpolated states is off; GUARANTEED another 1/3 (5 per integrator per 150): "
+         "setUseInfinityNorm(true) x >= 4 velocity-level constraint equations with uneven errors (chain of 2-3 Ball/Free joints, tip "
+         "pinned by a Ball constraint, PointInPlane on an inner body, Rod on the tip half of the time), keys <Integrator>.infnorm.<kind>.*; "
+         "all norms are evaluated in the norm in use (max |w_i err_i| <= tol under the infinity norm, separately for perr / quaternions / verr); "
          "mode 'oracle': one record per stepTo call of RungeKuttaMerson/Feldberg/3/2 (the integrators using the default attemptDAEStep) "
          "on a harness-defined constrained System whose projectQImpl/projectUImpl log every call and fail on demand (half of the sessions with "
          "projection of interpolated states off and 2-3 witness events); predicted: provenance of the handed-out AND of the advanced state; "
